@@ -54,6 +54,21 @@ impl Sources {
         let v = load_spec(&spec, &format!("eng_{}", std::process::id()));
         engine_of(vec![Arc::new(v)]).expect("engine")
     }
+    /// like `any_engine`, but returns a factory that loads the voice from its file again on every call, so
+    /// that two engines share nothing (no `Arc`, no cache) — used to observe history dependence
+    pub fn any_engine_factory(&self, rng: &mut Rng) -> (Box<dyn Fn() -> Engine>, &'static str) {
+        if rng.below(3) == 0 {
+            (Box::new(|| Engine::load(&[BUNDLED_VOICE]).expect("bundled voice")), "bundled")
+        } else {
+            let nstream = rng.range(2, 3);
+            let stage = if rng.chance(0.5) { 0 } else { rng.range(1, 3) };
+            let nstate = rng.range(1, 7);
+            let cfg = VoiceCfg { nstream, stage, nstate, max_leaves: 6 };
+            let spec = VoiceSpec::random(rng, &cfg, &self.pool);
+            let name = format!("fac_{}", std::process::id());
+            (Box::new(move || engine_of(vec![Arc::new(load_spec(&spec, &name))]).expect("engine")), if stage == 0 { "gen-mcp" } else { "gen-lsp" })
+        }
+    }
     /// bundled (1 in 3) or a generated voice over {2,3 streams} × {stage 0, ≥1} × nstate 1..7
     pub fn any_engine(&self, rng: &mut Rng) -> (Engine, &'static str) {
         if rng.below(3) == 0 {
@@ -403,7 +418,19 @@ pub fn gen_c11(seed: u64, thorough: bool) {
     let n = if thorough { 2500 } else { 150 };
     let bundled_voice = jbonsai::model::load_htsvoice_file(&BUNDLED_VOICE).unwrap();
     for i in 0..n {
-        let (mut e, kind) = match i % 4 {
+        // every seventh case: two voices (bundled + perturbed copy) blended on the log-F0 stream; the voicing
+        // weights handed to the oracle are then blended here from each voice's own values, not read back
+        let mut blend: Option<(Engine, Engine, f64)> = None;
+        let (mut e, kind) = match if i % 7 == 6 { 9 } else { i % 4 } {
+            9 => {
+                let v1 = Arc::new(bundled_voice.clone());
+                let v2 = Arc::new(perturb_voice(&bundled_voice, &mut rng));
+                let mut e = engine_of(vec![v1.clone(), v2.clone()]).unwrap();
+                let a = *rng.pick(&[0.5, 0.25, 0.8, 1.3, -0.2]);
+                e.condition.get_interporation_weight_mut().set_parameter(1, &[a, 1.0 - a]).expect("valid weights");
+                blend = Some((engine_of(vec![v1]).unwrap(), engine_of(vec![v2]).unwrap(), a));
+                (e, "two-voices")
+            }
             0 => (src.bundled.clone(), "bundled"),
             1 => (engine_of(vec![Arc::new(perturb_voice(&bundled_voice, &mut rng))]).unwrap(), "perturbed"),
             _ => {
@@ -419,7 +446,13 @@ pub fn gen_c11(seed: u64, thorough: bool) {
         let recombine = rng.chance(0.5);
         let lines = src.labels(&mut rng, nlab, recombine);
         // thresholds incl. exactly the MSD values present, 0 and 1
-        let states = stream_states(&e, &lines, 1);
+        let mut states = stream_states(&e, &lines, 1);
+        if let Some((e1, e2, a)) = &blend {
+            let (s1, s2) = (stream_states(e1, &lines, 1), stream_states(e2, &lines, 1));
+            for (k, st) in states.iter_mut().enumerate() {
+                st.1 = a * s1[k].1 + (1.0 - a) * s2[k].1;
+            }
+        }
         let pick_thr = |rng: &mut Rng| -> f64 {
             match rng.below(4) {
                 0 => states[rng.below(states.len())].1.clamp(0.0, 1.0),
